@@ -34,7 +34,7 @@ pub const ENTRY_POINTS: [(&str, Op); 12] = [
 ];
 const MODES: [&str; 5] = ["sequence", "threads", "incarnations", "seeds", "mixed"];
 
-struct Fixture {
+pub struct Fixture {
     sk: Vec<u8>,
     pk: Vec<u8>,
     sig: Vec<u8>,
